@@ -128,6 +128,12 @@ structure Graph where
   seqs : List (List Int)                    -- valid points of every sequence, ascending
   stopPoint : Option Int := none            -- `TaskPool.stop_point` (the final point unless set otherwise)
   cfgStop : Option Int := none              -- `[scheduling]stop after cycle point` of flow.cylc
+  /-- behaviour flags (probed from the live code, `Generated/CrashFlags.lean`): the early commits of `TaskPool` —
+  in `remove`, after recording an absolute output, after event-driven suicides — also write the task pool table
+  (true: repaired, the tables a restart joins describe the same moment at every commit; false: code as found) -/
+  poolAtRemove : Bool := false
+  poolAtAbs : Bool := false
+  poolAtSuicide : Bool := false
   deriving Repr, Inhabited
 
 def Graph.task? (g : Graph) (name : String) : Option TaskDefn := g.tasks.find? (·.name == name)
@@ -376,6 +382,16 @@ def commit (s : State) : State :=
     | some (k + 1) => { s with cdb := applyQ s.cdb s.q, q := {}, fuse := some k, ncommit := s.ncommit + 1 }
     | none => { s with cdb := applyQ s.cdb s.q, q := {}, ncommit := s.ncommit + 1 }
 
+/-- `put_task_pool`: the pool table (with prerequisites and timers) is replaced by the current pool, and the
+`task_states` row of every proxy whose state changed since the last call is updated (all queued) -/
+def putTaskPool (s : State) : State :=
+  let s1 := s.pool.foldl (fun st x => if x.upd then dbQueue st .pool x else st) s
+  { s1 with q := { s1.q with pool := some s1.pool } }
+
+/-- an early commit of `TaskPool`: with the behaviour flag up the task pool table is written along -/
+def commitP (withPool : Bool) (s : State) : State :=
+  if withPool then commit (putTaskPool s) else commit s
+
 /-- `_get_task_history` / `select_task_outputs`: the COMMITTED row of the instance -/
 def histOf (s : State) (p : Int) (n : String) : Option Row := s.cdb.rows.find? fun r => r.isKey p n
 
@@ -551,7 +567,7 @@ def remove (g : Graph) (s : State) (x : Proxy) : State :=
   let s := { s with pool := s.pool.filter (fun y => !(y.pt == x.pt && y.name == x.name)),
                     ghosts := s.ghosts ++ [x] }
   -- the final `task_states` update of the (now transient) proxy, written to the DB before moving on
-  commit (dbQueue s .stateTransient x)
+  commitP g.poolAtRemove (dbQueue s .stateTransient x)
 
 /-- `remove_if_complete` -/
 def removeIfComplete (g : Graph) (s : State) (x : Proxy) : State :=
@@ -579,7 +595,7 @@ def spawnChild (g : Graph) (p : Int) (n out : String) (acc : State × List (Int 
   let atom : Atom := ⟨p, n, out⟩
   -- an absolute output is recorded and committed at once
   let st := if c.isAbs then
-      commit { st with absDone := addAbs st.absDone atom, q := { st.q with abs := st.q.abs ++ [atom] } }
+      commitP g.poolAtAbs { st with absDone := addAbs st.absDone atom, q := { st.q with abs := st.q.abs ++ [atom] } }
     else st
   let inPool := (st.get? c.pt c.name).isSome
   let (st, child) : State × Option Proxy :=
@@ -612,7 +628,7 @@ def spawnOnOutput (g : Graph) (s : State) (p : Int) (n : String) (out : String) 
     let s := suicides.foldl (fun (st : State) k => match st.get? k.1 k.2 with
       | some z => remove g st z
       | none => st) s
-    let s := if suicides.isEmpty then s else commit s     -- "update DB now in case of very quick respawn attempt"
+    let s := if suicides.isEmpty then s else commitP g.poolAtSuicide s     -- "update DB now in case of very quick respawn attempt"
     match s.get? p n with
     | some x' => removeIfComplete g s x'
     | none => s
@@ -801,12 +817,6 @@ def sweepQueue (s : State) : State :=
         queueIfReady (st.put y) y
       else st
     | none => st) s
-
-/-- `put_task_pool`: the pool table (with prerequisites and timers) is replaced by the current pool, and the
-`task_states` row of every proxy whose state changed since the last call is updated (all queued) -/
-def putTaskPool (s : State) : State :=
-  let s1 := s.pool.foldl (fun st x => if x.upd then dbQueue st .pool x else st) s
-  { s1 with q := { s1.q with pool := some s1.pool } }
 
 /-- end of the main loop: `put_task_pool`, updated flags, DB commit, stall check -/
 def finishLoop (g : Graph) (s : State) : State :=
